@@ -315,6 +315,8 @@ pub fn arg_pool() -> Vec<&'static str> {
         "[::1]:80", "1.2.3.4", "0x7f.1", "localhost", "h", "h:80", "h:", ":80", "h:x", "H.COM", "ex%41mple.com", "xn--4db", "a@b", "u:p",
         "http", "https", "file", "ws", "a", "non-spec", "http:", "file:x", "1x", "ht tp", "80", "443", "0", "65535", "65536", "8x", "8\t0",
         "?q", "#f", "a=b&c=d", "\u{0}", "\u{7f}", "\u{80}", "a/../b", "a/./b", "/.//x", "a b ", "%00", "&", "=", "+", ";", "~",
+        // a '/' behind tab / LF (class of the repaired finding F-C06-6)
+        "\t/x", "\n//x", "\t/ y",
     ]
 }
 
